@@ -1,5 +1,7 @@
 import XProofs.Properties.C12
+#print axioms Properties.C12.C12_reduce_covers_universe
 #print axioms Properties.C12.C12_reduce_rebuild
+#print axioms Properties.C12.C12_reduce_rebuild_rows
 #print axioms Properties.C12.C12_restored_same_behaviour
 #print axioms Properties.C12.C12_copies_independent
 #print axioms Properties.C12.C12_restored_isomorphic
